@@ -216,7 +216,7 @@ def plan(tier, seed):
                         descs.append({"w": w, "st": st, "mode": mode, "kind": "raise", "call": c})
                 if tier == "quick" and mode == "seq" and w == "map3+reduce" and st in ("file_array", "dict"):
                     # an older complete run with other inputs lives in the folder; the new run (cleanup=True) dies at event k
-                    for k in range(1, len(ev) + 8, 2):
+                    for k in list(range(1, 16)) + list(range(16, len(ev) + 8, 2)):
                         descs.append({"w": w, "st": st, "mode": mode, "kind": "stale", "k": k})
                 if tier == "thorough" and mode == "seq":
                     for k, tear in rng.sample(pts, min(len(pts), 25)):
